@@ -48,6 +48,19 @@ def calNcl (n : Nat) : Nat := (8 + n + 63) / 64 + 2
 /-- number of cells the payload bytes `[8, 8+n)` of a message touch -/
 def spanCells (n : Nat) : Nat := (8 + n + 63) / 64
 
+/-- union of two sets of write ids kept as duplicate-free lists (`a` then what `b` adds): with a plain
+`++` a thread that is writer and reader doubles its set at every release/acquire pair -/
+def kmerge (a b : List Nat) : List Nat := a ++ b.filter (fun x => !a.contains x)
+
+theorem mem_kmerge_left {a : List Nat} (b : List Nat) {x : Nat} (h : x ∈ a) : x ∈ kmerge a b :=
+  List.mem_append_left _ h
+
+theorem mem_kmerge_right (a : List Nat) {b : List Nat} {x : Nat} (h : x ∈ b) : x ∈ kmerge a b := by
+  unfold kmerge
+  by_cases ha : x ∈ a
+  · exact List.mem_append_left _ ha
+  · exact List.mem_append_right _ (List.mem_filter.2 ⟨h, by simpa using ha⟩)
+
 /-- harness: fill byte of the `k`-th operation of thread `t` -/
 def tagOf (t k : Nat) : Nat := 1 + (t * 29 + k * 7) % 120
 
@@ -236,7 +249,7 @@ def step (s : St) (tok : Tok) : Option (St × List String) :=
     if s.lock = 0 then
       some ({ s with lock := 1, pc := upd s.pc t .a1,
                      cur := upd s.cur t { cu with drained := s.drained },
-                     know := upd s.know t (s.know t ++ s.relL) }, [ev])
+                     know := upd s.know t (kmerge (s.know t) s.relL) }, [ev])
     else some ({ s with pc := upd s.pc t .lkY }, [ev])
   | .lkY => some ({ s with pc := upd s.pc t .lk }, [s!"T{t} yield"])
   /- ---- w_alloc_cachelines ---- -/
@@ -347,7 +360,7 @@ def step (s : St) (tok : Tok) : Option (St × List String) :=
   /- ---- r_fetch ---- -/
   | .f0 =>
     some ({ s with pc := upd s.pc t (.f1 s.W), rP0 := s.pend.length, rMk0 := s.mark.isSome,
-                   know := upd s.know t (s.know t ++ s.relW) },
+                   know := upd s.know t (kmerge (s.know t) s.relW) },
           [s!"T{t} ld write_cursor {show32 s.W} acq"])
   | .f1 w =>
     let ev := s!"T{t} r read_cursor {show32 s.R}"
